@@ -107,6 +107,7 @@ void bidib_send_bm_mirror_occ(t_bidib_node_address n, uint8_t m, unsigned int ai
 void bidib_send_bm_mirror_free(t_bidib_node_address n, uint8_t m, unsigned int aid) { (void)n; (void)m; (void)aid; snd_mirror++; }
 void bidib_send_bm_mirror_multiple(t_bidib_node_address n, uint8_t m, uint8_t s, const uint8_t *const d, unsigned int aid) { (void)n; (void)m; (void)s; (void)d; (void)aid; snd_mirror++; }
 void bidib_send_msg_bm_mirror_position(t_bidib_node_address n, uint8_t a, uint8_t b, uint8_t c, unsigned int aid) { (void)n; (void)a; (void)b; (void)c; (void)aid; snd_mirror++; }
+void bidib_buffer_message_with_data(const uint8_t *const a, uint8_t t, uint8_t n, const uint8_t *const d, unsigned int aid) { (void)a; (void)t; (void)n; (void)d; (void)aid; snd_mirror++; }
 void bidib_send_accessory_get(t_bidib_node_address n, uint8_t num, unsigned int aid) { (void)aid; snd_accget++; snd_a[0] = n.top; snd_a[1] = n.sub; snd_a[2] = n.subsub; snd_a[3] = num; }
 void bidib_flush(void) { flush_n++; }
 
